@@ -67,7 +67,7 @@ func NewSession(repo, specDir, work string) (*Session, error) {
 	}
 	ex.IndexFunctions()
 	ex.RunInits()
-	s := &Session{Ex: ex, RepoDir: repo, SpecDir: specDir, WorkDir: work, TimeoutS: 10, Parallel: 8, ContractFiles: files, IdenticalInstances: map[string]int{}}
+	s := &Session{Ex: ex, RepoDir: repo, SpecDir: specDir, WorkDir: work, TimeoutS: 10, Parallel: 14, ContractFiles: files, IdenticalInstances: map[string]int{}}
 	s.LoadTime = time.Since(start).Seconds()
 	return s, nil
 }
